@@ -89,6 +89,11 @@ def generate(rng: random.Random, tier: str):
         cases.append({'kind': 'fourier_gram', 'seed': rng.randrange(1 << 30), 'flavour': rng.choice(['cart', 'radial', 'mixed'])})
     for _ in range(150 if thorough else 40):
         cases.append({'kind': 'opmatrix', 'seed': rng.randrange(1 << 30)})
+    from harness.props import c04_matrix
+
+    for _ in range(1200 if thorough else 160):
+        n = rng.randint(1, 3)
+        cases.append({'kind': 'mprogram', 'n': n, 'e': c04_matrix.rand_mexpr(rng, rng.randint(0, 3), n, 3), 'seed': rng.randrange(1 << 30)})
     return cases
 
 
@@ -318,8 +323,10 @@ def run(case, drv) -> Outcome:
         return run_samp_gram(case, drv)
     if k == 'fourier_gram':
         return run_fourier_gram(case, drv)
-    from harness.props.c04_matrix import run_opmatrix
+    from harness.props.c04_matrix import run_mprogram, run_opmatrix
 
+    if k == 'mprogram':
+        return run_mprogram(case, drv)
     return run_opmatrix(case, drv)
 
 
